@@ -197,7 +197,16 @@ type loadOutcome struct {
 
 var hangs int64 // deb.Load executions that did not return (their goroutines keep spinning)
 
-func driveLoad(b []byte, conv int) loadOutcome {
+// WithMapOrder runs f; on the instrumented build the SECOND load of every input runs with every map scan inside
+// package deb in reversed order (sorted order for the first), so "the same bytes give the same outcome" is checked across
+// two different legal iteration orders instead of twice the same one.
+var WithMapOrder = func(second bool, f func()) { f() }
+
+// MapOrderNote is what the evidence says about it.
+var MapOrderNote = "plain build: both loads use the runtime's map iteration order"
+
+func driveLoad(b []byte, conv int, second ...bool) loadOutcome {
+	sec := len(second) > 0 && second[0]
 	type res struct {
 		o loadOutcome
 	}
@@ -205,7 +214,10 @@ func driveLoad(b []byte, conv int) loadOutcome {
 	fin := mc.WithTimeout(HangGuard, func() {
 		var d *deb.Deb
 		var err error
-		if p, msg := mc.Guard(func() { d, err = deb.Load(gen.ArmReaderAt(b, conv), "x.deb") }); p {
+		var p bool
+		var msg string
+		WithMapOrder(sec, func() { p, msg = mc.Guard(func() { d, err = deb.Load(gen.ArmReaderAt(b, conv), "x.deb") }) })
+		if p {
 			r.o = loadOutcome{Res: "panic", msg: msg}
 			return
 		}
@@ -338,7 +350,7 @@ func evalLoad(b []byte, conv int) (fs []finding, class string) {
 		add(finding{"no-panic", "no panic", "panic: " + o.msg})
 	}
 	memberFindings(b, o.Mem, add)
-	o2 := driveLoad(b, conv)
+	o2 := driveLoad(b, conv, true)
 	if o2.Res == "hang" {
 		add(finding{"terminates", "deb.Load returns", "second deb.Load of the same bytes has not returned after " + HangGuard.String()})
 		return
